@@ -132,6 +132,27 @@ func init() {
 			{Name: "rewrite: separator appended by a helper", Edits: []Edit{
 				{File: st, Old: "\tif !strings.HasSuffix(cleanPrefix, string(filepath.Separator)) {\n\t\tcleanPrefix += string(filepath.Separator)\n\t}\n\n\treturn strings.HasPrefix(cleanPath, cleanPrefix)\n}\n", New: "\treturn strings.HasPrefix(cleanPath, withSeparator(cleanPrefix))\n}\n\nfunc withSeparator(p string) string {\n\tif strings.HasSuffix(p, string(filepath.Separator)) {\n\t\treturn p\n\t}\n\treturn p + string(filepath.Separator)\n}\n"},
 			}},
+			// ---- round 3: refactoring classes that used to alarm
+			{Name: "rewrite: resolver chosen through a function value", Edits: []Edit{
+				{File: st, Old: "\tif followFinal {\n\t\trealPath, err = resolvePath(normalizePath(path))\n\t} else {\n\t\trealPath, err = resolveParent(normalizePath(path))\n\t}\n", New: "\tresolve := resolveParent\n\tif followFinal {\n\t\tresolve = resolvePath\n\t}\n\trealPath, err = resolve(normalizePath(path))\n"},
+			}},
+			{Name: "rewrite: resolvers behind a dispatcher taking the follow flag", Edits: []Edit{
+				{File: st, Old: "\tif followFinal {\n\t\trealPath, err = resolvePath(normalizePath(path))\n\t} else {\n\t\trealPath, err = resolveParent(normalizePath(path))\n\t}\n", New: "\trealPath, err = locatePath(normalizePath(path), followFinal)\n"},
+				{File: st, Old: "// resolveParent is resolvePath for operations", New: "func locatePath(path string, followFinal bool) (string, error) {\n\tif !followFinal {\n\t\treturn resolveParent(path)\n\t}\n\treturn resolvePath(path)\n}\n\n// resolveParent is resolvePath for operations"},
+			}},
+			{Name: "rewrite: agent helper reports the resolved path with an ok flag", Edits: []Edit{
+				{File: ag, Old: "\tdestPath, err := a.fileStreamHandler.ResolvePath(fts.Meta.Path)\n\tif err != nil {\n\t\ta.logger.Error(\"file upload destination not allowed\",\n\t\t\tlogging.KeyStreamID, fts.StreamID,\n\t\t\tlogging.KeyError, err)\n\t\ta.WriteStreamOpenErr(fts.PeerID, fts.StreamID, fts.RequestID, protocol.ErrNotAllowed, err.Error())\n\t\treturn\n\t}\n", New: "\tdestPath, allowed := a.allowedTransferPath(fts)\n\tif !allowed {\n\t\treturn\n\t}\n"},
+				{File: ag, Old: "// IsSleepEnabled returns true if sleep mode is enabled.\n", New: "func (a *Agent) allowedTransferPath(fts *fileTransferStream) (string, bool) {\n\trealPath, err := a.fileStreamHandler.ResolvePath(fts.Meta.Path)\n\tif err == nil {\n\t\treturn realPath, true\n\t}\n\ta.WriteStreamOpenErr(fts.PeerID, fts.StreamID, fts.RequestID, protocol.ErrNotAllowed, err.Error())\n\treturn \"\", false\n}\n\n// IsSleepEnabled returns true if sleep mode is enabled.\n"},
+			}},
+			{Name: "ok flag of the agent helper ignored", ExpectRule: "C26.R6", ExpectKey: "completeFileUpload", Edits: []Edit{
+				{File: ag, Old: "\tdestPath, err := a.fileStreamHandler.ResolvePath(fts.Meta.Path)\n\tif err != nil {\n\t\ta.logger.Error(\"file upload destination not allowed\",\n\t\t\tlogging.KeyStreamID, fts.StreamID,\n\t\t\tlogging.KeyError, err)\n\t\ta.WriteStreamOpenErr(fts.PeerID, fts.StreamID, fts.RequestID, protocol.ErrNotAllowed, err.Error())\n\t\treturn\n\t}\n", New: "\tdestPath, _ := a.allowedTransferPath(fts)\n"},
+				{File: ag, Old: "// IsSleepEnabled returns true if sleep mode is enabled.\n", New: "func (a *Agent) allowedTransferPath(fts *fileTransferStream) (string, bool) {\n\trealPath, err := a.fileStreamHandler.ResolvePath(fts.Meta.Path)\n\tif err == nil {\n\t\treturn realPath, true\n\t}\n\ta.WriteStreamOpenErr(fts.PeerID, fts.StreamID, fts.RequestID, protocol.ErrNotAllowed, err.Error())\n\treturn \"\", false\n}\n\n// IsSleepEnabled returns true if sleep mode is enabled.\n"},
+			}},
+			{Name: "dispatcher called with the flag inverted for chmod", ExpectRule: "C26.R5", ExpectKey: "browseChmod", Edits: []Edit{
+				{File: st, Old: "\tif followFinal {\n\t\trealPath, err = resolvePath(normalizePath(path))\n\t} else {\n\t\trealPath, err = resolveParent(normalizePath(path))\n\t}\n", New: "\trealPath, err = locatePath(normalizePath(path), followFinal)\n"},
+				{File: st, Old: "// resolveParent is resolvePath for operations", New: "func locatePath(path string, followFinal bool) (string, error) {\n\tif !followFinal {\n\t\treturn resolveParent(path)\n\t}\n\treturn resolvePath(path)\n}\n\n// resolveParent is resolvePath for operations"},
+				{File: br, Old: "\trealPath, errResp := h.requirePath(req.Path, true)\n\tif errResp != nil {\n\t\treturn errResp\n\t}\n\n\tmode, err := parseOctalMode", New: "\trealPath, errResp := h.requirePath(req.Path, false)\n\tif errResp != nil {\n\t\treturn errResp\n\t}\n\n\tmode, err := parseOctalMode"},
+			}},
 			{Name: "rewrite: empty-list test dropped (loop does not run)", Edits: []Edit{
 				{File: st, Old: "\tif len(h.cfg.AllowedPaths) == 0 {\n\t\treturn fmt.Errorf(\"no paths are allowed (allowed_paths is empty)\")\n\t}\n", New: ""},
 			}},
@@ -306,13 +327,12 @@ type c26Ctx struct {
 	resolverFn map[*ssa.Function]int
 	sanOK      map[*ssa.Function]bool // sanitiser candidates -> valid
 	allowPred  map[*ssa.Function]int
-	parentOnly map[*ssa.Function]int
 	reach      map[[2]*ssa.Function]bool
 }
 
 func newC26Ctx(p *kit.Program) *c26Ctx {
 	return &c26Ctx{p: p, taint: map[*types.Var]bool{}, resolverFn: map[*ssa.Function]int{}, sanOK: map[*ssa.Function]bool{},
-		allowPred: map[*ssa.Function]int{}, parentOnly: map[*ssa.Function]int{}, reach: map[[2]*ssa.Function]bool{}}
+		allowPred: map[*ssa.Function]int{}, reach: map[[2]*ssa.Function]bool{}}
 }
 
 func (cx *c26Ctx) isValidator(fn *ssa.Function) bool {
@@ -346,11 +366,30 @@ func (cx *c26Ctx) isResolverResult(v ssa.Value) bool {
 	if c == nil {
 		return false
 	}
-	if c26IsEvalSymlinks(c) {
-		return true
+	fns := c26CallFns(c)
+	if len(fns) == 0 {
+		return false
 	}
-	cal := kit.CalleeOf(c)
-	return cal.Static != nil && cx.isResolverFn(cal.Static)
+	for _, f := range fns {
+		if !c26IsEvalSymlinksFn(f) && !cx.isResolverFn(f) {
+			return false
+		}
+	}
+	return true
+}
+
+// c26CallFns: the functions call c can invoke - its static callee, or every function a
+// local function value can hold (resolve := a; if x { resolve = b }; resolve(p)). nil when
+// that is not decidable from the instruction.
+func c26CallFns(c *ssa.Call) []*ssa.Function {
+	if t, ok := kit.CallTargets(c); ok {
+		return t
+	}
+	return nil
+}
+
+func c26IsEvalSymlinksFn(f *ssa.Function) bool {
+	return f != nil && f.Pkg != nil && f.Pkg.Pkg.Path() == "path/filepath" && f.Name() == "EvalSymlinks" && f.Signature.Recv() == nil
 }
 
 func c26FirstResultIsString(fn *ssa.Function) bool {
@@ -555,9 +594,8 @@ func runC26(p *kit.Program, r *kit.Report) {
 				OnStateCross: func(read ssa.Value, write ssa.Instruction, val ssa.Value) {
 					crossings = append(crossings, c26Cross{read, write, val})
 				},
-				OnBarrier: func(v ssa.Value, stripped bool, argOf func(*ssa.Parameter) ssa.Value) {
-					evalArg := func(a ssa.Value) (bool, bool) { return c26EvalBool(a, nil, argOf, 0) }
-					if !stripped && cx.barrierParentOnly(v, evalArg) {
+				OnBarrierChain: func(v ssa.Value, stripped bool, chain []*ssa.Call) {
+					if !stripped && cx.barrierPartial(v, c26ChainEval(nil, chain)) {
 						partial = append(partial, v)
 					}
 				}}
@@ -665,14 +703,78 @@ func c26StripsLast(c *ssa.Call, idx int) bool {
 	return cal.Name == "Dir" || (cal.Name == "Split" && idx == 0)
 }
 
-// isParentOnlyCall: the resolver call c (inside fn) resolves only the directory part of
-// fn's input: every chain from its path argument back to a parameter passes filepath.Dir
-// (or Split #0), or its callee is itself such a resolver.
-func (cx *c26Ctx) isParentOnlyCall(fn *ssa.Function, c *ssa.Call) bool {
-	cal := kit.CalleeOf(c)
-	if cal.Static != nil && cx.isParentOnlyResolver(cal.Static) {
-		return true
+// c26NestedEval: the evaluator for the body of g when entered through call (parameters map
+// to the call's arguments, which outer decides).
+func c26NestedEval(g *ssa.Function, call *ssa.Call, outer *c26Evaluator) *c26Evaluator {
+	return &c26Evaluator{outer: outer, param: func(prm *ssa.Parameter) ssa.Value {
+		for i, q := range g.Params {
+			if q == prm && i < len(call.Call.Args) {
+				return call.Call.Args[i]
+			}
+		}
+		return nil
+	}}
+}
+
+// c26ChainEval builds the evaluator for the function reached by descending through chain
+// (outermost call first) from a function in which env holds.
+func c26ChainEval(env c26Env, chain []*ssa.Call) *c26Evaluator {
+	ev := &c26Evaluator{env: env}
+	for _, c := range chain {
+		g := kit.CalleeOf(c).Static
+		if g == nil {
+			return &c26Evaluator{}
+		}
+		ev = c26NestedEval(g, c, ev)
 	}
+	return ev
+}
+
+// feasibleTargets: the functions call c (inside a function evaluated by ev) can invoke,
+// with the edges of a function-value phi filtered by feasibility.
+func c26FeasibleTargets(c *ssa.Call, ev *c26Evaluator) []*ssa.Function {
+	if c.Call.IsInvoke() {
+		return nil
+	}
+	var out []*ssa.Function
+	seen := map[ssa.Value]bool{}
+	ok := true
+	var expand func(v ssa.Value)
+	expand = func(v ssa.Value) {
+		if seen[v] {
+			return
+		}
+		seen[v] = true
+		switch x := v.(type) {
+		case *ssa.Phi:
+			for i, e := range x.Edges {
+				if ev.edgeFeasible(x.Block().Preds[i], x.Block(), 0) {
+					expand(e)
+				}
+			}
+		case *ssa.Function:
+			out = append(out, x)
+		case *ssa.MakeClosure:
+			if f, isFn := x.Fn.(*ssa.Function); isFn {
+				out = append(out, f)
+			} else {
+				ok = false
+			}
+		default:
+			ok = false
+		}
+	}
+	expand(c.Call.Value)
+	if !ok {
+		return nil
+	}
+	return out
+}
+
+// argsStripped: every path argument of resolver call c (inside g) has lost its last
+// component on every feasible chain back to g's parameters (filepath.Dir / Split #0): the
+// call resolves a directory part only.
+func (cx *c26Ctx) argsStripped(g *ssa.Function, c *ssa.Call, ev *c26Evaluator) bool {
 	stripped := func(v ssa.Value) bool {
 		k, idx, ok := kit.ResultOf(v)
 		return ok && c26StripsLast(k, idx)
@@ -682,7 +784,8 @@ func (cx *c26Ctx) isParentOnlyCall(fn *ssa.Function, c *ssa.Call) bool {
 		if !c26IsStringType(a.Type()) {
 			continue
 		}
-		res := (&kit.PathFlow{Prog: cx.p, Within: fn, Barrier: stripped}).Walk(a)
+		res := (&kit.PathFlow{Prog: cx.p, Within: g, Barrier: stripped,
+			PhiEdge: func(phi *ssa.Phi, i int) bool { return ev.edgeFeasible(phi.Block().Preds[i], phi.Block(), 0) }}).Walk(a)
 		if len(res.Params) > 0 || len(res.Barriers) == 0 {
 			return false
 		}
@@ -691,37 +794,86 @@ func (cx *c26Ctx) isParentOnlyCall(fn *ssa.Function, c *ssa.Call) bool {
 	return any
 }
 
-// isParentOnlyResolver: a resolver function all of whose returned paths come from
-// parent-only resolver calls (the last component of its input is re-attached unresolved).
-func (cx *c26Ctx) isParentOnlyResolver(fn *ssa.Function) bool {
-	switch cx.parentOnly[fn] {
-	case 1:
-		return true
-	case 2, 3:
-		return false
+// fnKinds classifies the paths resolver function g can return when its body is evaluated
+// by ev: partial = some feasible return re-attaches an unresolved last component (it comes
+// from a resolver call fed with a stripped path), full = some feasible return is fully
+// resolved. Undecided conditions keep both kinds feasible.
+func (cx *c26Ctx) fnKinds(g *ssa.Function, ev *c26Evaluator, depth int) (partial, full bool) {
+	if depth > 6 || g.Blocks == nil {
+		return true, true
 	}
-	cx.parentOnly[fn] = 3
-	ok := cx.isResolverFn(fn)
-	some := false
-	if ok {
-		for _, ret := range kit.Returns(fn) {
-			v := kit.ReturnResult(ret, 0)
-			if _, isConst := v.(*ssa.Const); isConst {
+	seen := map[ssa.Value]bool{}
+	var expand func(x ssa.Value)
+	expand = func(x ssa.Value) {
+		if seen[x] {
+			return
+		}
+		seen[x] = true
+		if phi, isPhi := x.(*ssa.Phi); isPhi {
+			for i, e := range phi.Edges {
+				if ev.edgeFeasible(phi.Block().Preds[i], phi.Block(), 0) {
+					expand(e)
+				}
+			}
+			return
+		}
+		q := &kit.PathFlow{Prog: cx.p, LeadOnly: true, Within: g, Barrier: cx.isResolverResult,
+			PhiEdge: func(phi *ssa.Phi, i int) bool { return ev.edgeFeasible(phi.Block().Preds[i], phi.Block(), 0) }}
+		for _, b := range q.Walk(x).Barriers {
+			c := c26ResultCall(b)
+			if c == nil {
+				full = true
 				continue
 			}
-			for _, b := range cx.leadWalk(fn, v).Barriers {
-				some = true
-				if c := c26ResultCall(b); c == nil || !cx.isParentOnlyCall(fn, c) {
-					ok = false
+			if cx.argsStripped(g, c, ev) {
+				partial = true
+				continue
+			}
+			targets := c26FeasibleTargets(c, ev)
+			if len(targets) == 0 {
+				partial, full = true, true
+				continue
+			}
+			for _, t := range targets {
+				if c26IsEvalSymlinksFn(t) || t.Blocks == nil {
+					full = true
+					continue
 				}
+				p, f := cx.fnKinds(t, c26NestedEval(t, c, ev), depth+1)
+				partial, full = partial || p, full || f
 			}
 		}
 	}
-	if ok && some {
-		cx.parentOnly[fn] = 1
+	for _, ret := range kit.Returns(g) {
+		if ret.Block() == g.Recover || !ev.blockFeasible(ret.Block(), 0) {
+			continue
+		}
+		x := kit.ReturnResult(ret, 0)
+		if _, isConst := x.(*ssa.Const); isConst {
+			continue
+		}
+		expand(x)
+	}
+	return
+}
+
+// barrierPartial: the sanitiser / containment result v may be a path whose last component
+// was left unresolved - it is not provably fully resolved when the function containing the
+// call is evaluated by outer.
+func (cx *c26Ctx) barrierPartial(v ssa.Value, outer *c26Evaluator) bool {
+	call := c26ResultCall(v)
+	if call == nil {
+		return false
+	}
+	targets := c26FeasibleTargets(call, outer)
+	if len(targets) == 0 {
 		return true
 	}
-	cx.parentOnly[fn] = 2
+	for _, g := range targets {
+		if p, _ := cx.fnKinds(g, c26NestedEval(g, call, outer), 0); p {
+			return true
+		}
+	}
 	return false
 }
 
@@ -789,10 +941,33 @@ func c26AddFact(env c26Env, cond ssa.Value, outcome bool) {
 		}
 		if u, isLoad := pair[0].(*ssa.UnOp); isLoad && u.Op == token.MUL {
 			if fa, isFA := u.X.(*ssa.FieldAddr); isFA {
-				env[c26FieldKey{fa.X, kit.FieldOfAddr(fa)}] = k
+				env[c26FieldKey{c26CanonBase(fa.X), kit.FieldOfAddr(fa)}] = k
 			}
 		}
 	}
+}
+
+// c26CanonBase gives one identity to the different loads of a local variable that lives in
+// memory (captured by a closure) and is assigned exactly once: the variable's allocation.
+func c26CanonBase(v ssa.Value) ssa.Value {
+	u, ok := v.(*ssa.UnOp)
+	if !ok || u.Op != token.MUL {
+		return v
+	}
+	al, ok := u.X.(*ssa.Alloc)
+	if !ok || al.Referrers() == nil {
+		return v
+	}
+	n := 0
+	for _, r := range *al.Referrers() {
+		if st, isStore := r.(*ssa.Store); isStore && st.Addr == ssa.Value(al) {
+			n++
+		}
+	}
+	if n != 1 {
+		return v
+	}
+	return al
 }
 
 // c26Evaluator decides bool/integer SSA values from constants, field facts that hold at
@@ -867,8 +1042,23 @@ func (e *c26Evaluator) intOf(v ssa.Value, depth int) (int64, bool) {
 	case *ssa.UnOp:
 		if x.Op == token.MUL {
 			if fa, isFA := x.X.(*ssa.FieldAddr); isFA {
-				if have, ok := e.env[c26FieldKey{fa.X, kit.FieldOfAddr(fa)}]; ok {
-					return have, true
+				// x.f where x is (a parameter bound, possibly over several calls, to) the
+				// object the facts are about
+				base, ev := fa.X, e
+				for ev != nil {
+					base = c26CanonBase(base)
+					if have, ok := ev.env[c26FieldKey{base, kit.FieldOfAddr(fa)}]; ok {
+						return have, true
+					}
+					prm, isParam := base.(*ssa.Parameter)
+					if !isParam || ev.param == nil {
+						break
+					}
+					a := ev.param(prm)
+					if a == nil || a == base {
+						break
+					}
+					base, ev = a, ev.outer
 				}
 			}
 		}
@@ -963,6 +1153,9 @@ func (e *c26Evaluator) boolOf(v ssa.Value, depth int) (val, known bool) {
 			if len(ret.Results) != 1 {
 				return false, false
 			}
+			if !inner.blockFeasible(ret.Block(), depth+1) {
+				continue // this return cannot be taken for the arguments at hand
+			}
 			b, ok := inner.boolOf(kit.ReturnResult(ret, 0), depth+1)
 			if !ok || (n > 0 && b != res) {
 				return false, false
@@ -979,71 +1172,6 @@ func (e *c26Evaluator) boolOf(v ssa.Value, depth int) (val, known bool) {
 // call-site arguments); known=false when the value is not determined.
 func c26EvalBool(v ssa.Value, env c26Env, param func(*ssa.Parameter) ssa.Value, depth int) (val, known bool) {
 	return (&c26Evaluator{env: env, param: param}).boolOf(v, depth)
-}
-
-// barrierKinds classifies the paths the sanitiser call behind v can return for the
-// arguments supplied on this chain (constants, or values evalArg can decide): partial =
-// some feasible return comes from a parent-only resolver call (last component kept as
-// named), full = some feasible return is fully resolved. An undecided selector makes both
-// kinds feasible.
-func (cx *c26Ctx) barrierKinds(v ssa.Value, evalArg func(a ssa.Value) (bool, bool)) (partial, full bool) {
-	call := c26ResultCall(v)
-	if call == nil {
-		return false, false
-	}
-	g := kit.CalleeOf(call).Static
-	if g == nil {
-		return false, false
-	}
-	// conditions inside g: decided through g's bool parameters
-	evalIn := &c26Evaluator{param: func(prm *ssa.Parameter) ssa.Value {
-		for i, q := range g.Params {
-			if q == prm && i < len(call.Call.Args) {
-				if b, known := evalArg(call.Call.Args[i]); known {
-					return ssa.Value(c26BoolConst(b))
-				}
-			}
-		}
-		return nil
-	}}
-	seen := map[ssa.Value]bool{}
-	var expand func(x ssa.Value)
-	expand = func(x ssa.Value) {
-		if seen[x] {
-			return
-		}
-		seen[x] = true
-		if phi, isPhi := x.(*ssa.Phi); isPhi {
-			for i, e := range phi.Edges {
-				if evalIn.edgeFeasible(phi.Block().Preds[i], phi.Block(), 0) {
-					expand(e)
-				}
-			}
-			return
-		}
-		for _, b := range cx.leadWalk(g, x).Barriers {
-			if c := c26ResultCall(b); c != nil && cx.isParentOnlyCall(g, c) {
-				partial = true
-			} else {
-				full = true
-			}
-		}
-	}
-	for _, ret := range kit.Returns(g) {
-		x := kit.ReturnResult(ret, 0)
-		if _, isConst := x.(*ssa.Const); isConst {
-			continue
-		}
-		expand(x)
-	}
-	return
-}
-
-// barrierParentOnly: the sanitiser result v may be a path whose last component was left
-// unresolved (it is not provably fully resolved on this chain).
-func (cx *c26Ctx) barrierParentOnly(v ssa.Value, evalArg func(a ssa.Value) (bool, bool)) bool {
-	partial, _ := cx.barrierKinds(v, evalArg)
-	return partial
 }
 
 // c26BoolConst returns an SSA constant for b (used to feed decided arguments back into c26EvalBool).
@@ -1101,6 +1229,44 @@ func (cx *c26Ctx) sanitiserFamily() map[*ssa.Function]bool {
 	return fam
 }
 
+// c26SuccessKnown: the guards establish that the failure indicator returned by g (its last
+// result) signals success: nil for an error / pointer / interface indicator; for a bool
+// indicator the constant that g returns together with its non-constant paths.
+func c26SuccessKnown(gs []kit.Guard, fail ssa.Value, g *ssa.Function) bool {
+	if b, isBasic := fail.Type().Underlying().(*types.Basic); isBasic && b.Kind() == types.Bool {
+		okVal, have := false, false
+		n := g.Signature.Results().Len()
+		for _, ret := range kit.Returns(g) {
+			if _, isConst := kit.ReturnResult(ret, 0).(*ssa.Const); isConst {
+				continue
+			}
+			bv, isConst := kit.ConstBool(kit.ReturnResult(ret, n-1))
+			if !isConst || (have && bv != okVal) {
+				return false // success is not signalled by one constant
+			}
+			okVal, have = bv, true
+		}
+		if !have {
+			return false
+		}
+		for _, gd := range gs {
+			cond, pol := gd.Cond, gd.Polarity
+			for {
+				u, isNot := cond.(*ssa.UnOp)
+				if !isNot || u.Op != token.NOT {
+					break
+				}
+				cond, pol = u.X, !pol
+			}
+			if cond == fail && pol == okVal {
+				return true
+			}
+		}
+		return false
+	}
+	return kit.ErrNilOn(gs, fail)
+}
+
 // checkResultUses decides R6 at every call site of a sanitiser-family function.
 func (cx *c26Ctx) checkResultUses(r *kit.Report) {
 	p := cx.p
@@ -1145,7 +1311,7 @@ func (cx *c26Ctx) checkResultUses(r *kit.Report) {
 						continue // handed on together with the failure indicator
 					}
 				}
-				if fail != nil && kit.ErrNilOn(kit.GuardsOf(u), fail) {
+				if fail != nil && c26SuccessKnown(kit.GuardsOf(u), fail, g) {
 					continue
 				}
 				bad = p.Pos(u.Pos())
@@ -1154,8 +1320,8 @@ func (cx *c26Ctx) checkResultUses(r *kit.Report) {
 				}
 			}
 			r.Decide(bad == "", "C26.R6", key, pos,
-				"every use of the returned path is behind the nil check of the accompanying error/response",
-				"the returned path is used at "+bad+" where the sanitiser's failure indicator is not known to be nil: on failure the path is empty, filepath.Clean makes it \".\" and the file operation (for a directory upload: the whole extraction) acts on the agent's working directory")
+				"every use of the returned path is behind the success check of the accompanying error/response/ok value",
+				"the returned path is used at "+bad+" where the sanitiser's failure indicator is not known to signal success: on failure the path is empty, filepath.Clean makes it \".\" and the file operation (for a directory upload: the whole extraction) acts on the agent's working directory")
 		}
 	}
 	r.Count("sanitiser_family_call_sites", nSites)
